@@ -48,68 +48,164 @@ func isKindLoad(v ssa.Value) bool {
 	return false
 }
 
+// mergerGuardExemptions: the ways a same-named definition leaves mergeTypes without having its
+// kind compared, each with what is known about it.
+var mergerGuardExemptions = map[string]string{
+	"name is Node": "the `Node` interface of a later service is dropped before any comparison (every service declares the same relay interface). " +
+		"Its kind is NOT compared: `interface Node` in one service and `type Node {…}` in another merge silently in one order and fail in LoadSchema in the other (fourth audit, M-C2: a recorded weakness of pebbles, not covered by C05's kind-collision claim)",
+}
+
+// mergerRecordedDefects: obligations that fail on the pinned tree and are reported as known
+// findings until pebbles is repaired (fourth audit). The key is the construct of the obligation.
+var mergerRecordedDefects = map[string]string{
+	"members compared between the two definitions (PossibleTypes)": "M-C1: the interface branch of mergeTypes builds both name lists from the same schema (`as.PossibleTypes[va.Name]` and `as.PossibleTypes[nvb.Name]`, one name): the comparison can never fire, `interface Shape` with {Circle} in one service and {Square, Triangle} in the other merges silently",
+}
+
+func isNodePredicateCall(v ssa.Value) (*ssa.Call, bool) {
+	c, ok := v.(*ssa.Call)
+	if !ok || !strings.HasSuffix(calleeName(&c.Call), "merger.isImplementsNodeInterface") || len(c.Call.Args) != 1 {
+		return nil, false
+	}
+	return c, true
+}
+
+// kindOwner: the definition whose Kind v loads (nil if v is no such load).
+func kindOwner(v ssa.Value) ssa.Value {
+	v = unwrap(v)
+	switch x := v.(type) {
+	case *ssa.UnOp:
+		if x.Op == token.MUL {
+			if fa, ok := x.X.(*ssa.FieldAddr); ok && fieldOf(fa) != nil && fieldOf(fa).Name() == "Kind" && strings.HasSuffix(namedOf(fa.X.Type()), "ast.Definition") {
+				return copyOrigin(fa.X)
+			}
+		}
+	case *ssa.Field:
+		if f := fieldOfVal(x); f != nil && f.Name() == "Kind" {
+			return copyOrigin(x.X)
+		}
+	}
+	return nil
+}
+
+// isNodeNameTest: (atom, truth) says "this definition is the one called Node".
+func isNodeNameTest(atom ssa.Value, truth bool) bool {
+	isNodeConst := func(v ssa.Value) bool {
+		k, ok := v.(*ssa.Const)
+		return ok && k.Value != nil && k.Value.Kind() == constant.String && constant.StringVal(k.Value) == "Node"
+	}
+	switch c := atom.(type) {
+	case *ssa.BinOp:
+		if (c.Op == token.EQL || c.Op == token.NEQ) && (isNodeConst(c.X) || isNodeConst(c.Y)) {
+			return (c.Op == token.EQL) == truth
+		}
+	case *ssa.Call:
+		if strings.HasSuffix(calleeName(&c.Call), "common.IsNodeInterfaceName") {
+			return truth
+		}
+	}
+	return false
+}
+
 func ruleMergerGuards(r *Run) {
 	const rule = "R13o"
 	mt := r.Anchor(rule, "merger.mergeTypes")
 	if mt != nil {
 		name := fnName(mt)
-		// found side: comma-ok lookup in the result map
+		kindAtom := func(bo *ssa.BinOp) (ssa.Value, ssa.Value, bool) {
+			x, y := kindOwner(bo.X), kindOwner(bo.Y)
+			return x, y, x != nil && y != nil
+		}
+		nodeAtom := func(bo *ssa.BinOp) (ssa.Value, ssa.Value, bool) {
+			cx, ok1 := isNodePredicateCall(bo.X)
+			cy, ok2 := isNodePredicateCall(bo.Y)
+			if !ok1 || !ok2 {
+				return nil, nil, false
+			}
+			return cx.Call.Args[0], cy.Call.Args[0], true
+		}
+		isDefLookup := func(v ssa.Value) *ssa.Lookup {
+			lk, ok := v.(*ssa.Lookup)
+			if !ok {
+				return nil
+			}
+			if m, ok := lk.X.Type().Underlying().(*types.Map); ok && strings.HasSuffix(namedOf(m.Elem()), "ast.Definition") {
+				return lk
+			}
+			return nil
+		}
+		// found side: `va, found := result[k]` tested by found, or `va := result[k]` tested for nil
+		type edge struct {
+			from, to *ssa.BasicBlock
+		}
 		var foundSide map[*ssa.BasicBlock]bool
-		var kindEq, nodeEq map[*ssa.BasicBlock]bool
-		var kindIf, nodeIf *ssa.If
+		var foundEdges []edge
+		var kindG, nodeG *guard
+		selfKind := false
 		for _, ins := range allInstrs(mt) {
 			iff, ok := ins.(*ssa.If)
 			if !ok {
 				continue
 			}
-			if ex, ok := iff.Cond.(*ssa.Extract); ok && ex.Index == 1 {
-				if lk, ok := ex.Tuple.(*ssa.Lookup); ok && lk.CommaOk {
-					foundSide = union(foundSide, dominatedBy(iff.Block().Succs[0]))
+			for k, s := range iff.Block().Succs {
+				atom, truth, feasible := branchFact(iff.Block(), nil, k, nil)
+				if !feasible || atom == nil {
+					continue
 				}
-			}
-			if un, ok := iff.Cond.(*ssa.UnOp); ok && un.Op == token.NOT {
-				if ex, ok := un.X.(*ssa.Extract); ok && ex.Index == 1 {
-					if lk, ok := ex.Tuple.(*ssa.Lookup); ok && lk.CommaOk {
-						foundSide = union(foundSide, dominatedBy(iff.Block().Succs[1]))
+				found := false
+				if ex, ok := atom.(*ssa.Extract); ok && ex.Index == 1 && truth {
+					if lk, ok := ex.Tuple.(*ssa.Lookup); ok && lk.CommaOk && isDefLookup(lk) != nil {
+						found = true
 					}
 				}
+				if nonNil, ok := resolveNilTest(atom, func(v ssa.Value) bool {
+					if ex, ok := v.(*ssa.Extract); ok && ex.Index == 0 {
+						v = ex.Tuple
+					}
+					return isDefLookup(v) != nil
+				}, 0); ok && nonNil == truth {
+					found = true
+				}
+				if found {
+					foundSide = union(foundSide, dominatedBy(s))
+					foundEdges = append(foundEdges, edge{iff.Block(), s})
+				}
 			}
-			bo, ok := iff.Cond.(*ssa.BinOp)
-			if !ok || (bo.Op != token.NEQ && bo.Op != token.EQL) {
-				continue
+			if g := resolveGuard(iff, kindAtom); g != nil {
+				if copyOrigin(g.x) == copyOrigin(g.y) {
+					selfKind = true
+					r.Bad(rule, name, "kind collision check", r.P.pos(iff.Cond.Pos()), "the kind comparison reads both kinds from the same definition (a copy compared with its own original): a name used for different kinds in two services is never noticed")
+				} else {
+					kindG = g
+					r.Check(returnsErrorOnAllPaths(mt, g.diff), rule, name, "kind collision is an error", r.P.pos(iff.Cond.Pos()),
+						"once the kinds of the incoming and the existing definition are compared, a difference returns an error on every path (the definition called Node never reaches the comparison, see the exemption)", "a name used for different kinds in two services does not always end in an error")
+				}
 			}
-			diff, same := iff.Block().Succs[0], iff.Block().Succs[1]
-			if bo.Op == token.EQL {
-				diff, same = same, diff
-			}
-			if isKindLoad(bo.X) && isKindLoad(bo.Y) {
-				kindIf = iff
-				kindEq = dominatedBy(same)
-				r.Check(returnsErrorOnAllPaths(mt, diff), rule, name, "kind collision is an error", r.P.pos(iff.Cond.Pos()),
-					"different kinds under one name return an error on every path", "a name used for different kinds in two services does not always end in an error")
-			}
-			isNodeCall := func(v ssa.Value) bool {
-				c, ok := v.(*ssa.Call)
-				return ok && strings.HasSuffix(calleeName(&c.Call), "merger.isImplementsNodeInterface")
-			}
-			if isNodeCall(bo.X) && isNodeCall(bo.Y) {
-				nodeIf = iff
-				nodeEq = dominatedBy(same)
-				r.Check(returnsErrorOnAllPaths(mt, diff), rule, name, "Node-interface disagreement is an error", r.P.pos(iff.Cond.Pos()),
-					"a type that implements Node in one service but not in the other returns an error on every path", "Node-interface disagreement does not always end in an error")
+			if g := resolveGuard(iff, nodeAtom); g != nil {
+				if copyOrigin(g.x) == copyOrigin(g.y) {
+					r.Bad(rule, name, "Node-interface agreement check", r.P.pos(iff.Cond.Pos()), "Node-interface membership of a definition is compared with itself")
+				} else {
+					nodeG = g
+					r.Check(returnsErrorOnAllPaths(mt, g.diff), rule, name, "Node-interface disagreement is an error", r.P.pos(iff.Cond.Pos()),
+						"a type that implements Node in one service but not in the other returns an error on every path", "Node-interface disagreement does not always end in an error")
+				}
 			}
 		}
-		if kindIf == nil {
+		if kindG == nil && !selfKind {
 			r.Bad(rule, name, "kind collision check", r.P.pos(mt.Pos()), "mergeTypes no longer compares the kinds of two same-named definitions")
 		}
-		if nodeIf == nil {
+		if nodeG == nil {
 			r.Bad(rule, name, "Node-interface agreement check", r.P.pos(mt.Pos()), "mergeTypes no longer compares Node-interface membership of two same-named definitions")
 		}
 		if foundSide == nil {
 			r.Bad(rule, name, "found/not-found split", r.P.pos(mt.Pos()), "lookup of the type in the accumulated result not recognised")
 		}
 		// every accept of an already-present name happens after the kind check
-		if kindIf != nil && foundSide != nil {
+		if kindG != nil && foundSide != nil {
+			kindEq := dominatedBy(kindG.same)
+			var nodeEq map[*ssa.BasicBlock]bool
+			if nodeG != nil {
+				nodeEq = dominatedBy(nodeG.same)
+			}
 			n := 0
 			for _, ins := range allInstrs(mt) {
 				if !foundSide[ins.Block()] {
@@ -132,41 +228,150 @@ func ruleMergerGuards(r *Run) {
 				r.Check(kindEq[ins.Block()], rule, name, what+" after kind check", r.P.pos(ins.Pos()),
 					"a definition whose name already exists is merged/overridden only after its kind was compared",
 					"a same-named definition is accepted (overridden or merged) on a path that has not passed the kind-collision check: e.g. `scalar X` silently replaces an object or enum X, depending on service order")
-				if strings.HasPrefix(what, "call") && nodeIf != nil {
+				if strings.HasPrefix(what, "call") && nodeG != nil {
 					r.Check(nodeEq[ins.Block()], rule, name, what+" after Node check", r.P.pos(ins.Pos()),
 						"merged only after Node-interface membership was compared", "objects are merged on a path that skipped the Node-interface agreement check")
 				}
 			}
-			r.AtLeast(rule, "accept sites for existing names", n, 3)
-		}
-		// union members compared
-		hasDiff := false
-		for _, ins := range allInstrs(mt) {
-			if c, ok := ins.(*ssa.Call); ok && strings.HasPrefix(calleeName(&c.Call), "github.com/samber/lo.Difference") {
-				hasDiff = true
+			r.AtLeast(rule, "accept sites for existing names", n, 1)
+			// … and leaving the incoming definition out (a `continue`) is an accept as well: the
+			// name keeps the kind the first service gave it. Every way from "the name exists" to
+			// the next name or to the successful return passes the kind comparison.
+			usedExempt := map[string]token.Pos{}
+			for _, e := range foundEdges {
+				loop := innermostLoop(e.from)
+				var header *ssa.BasicBlock
+				for b := range loop {
+					for _, p := range b.Preds {
+						if !loop[p] {
+							header = b
+						}
+					}
+				}
+				q := &pathQuery{
+					settleAt: func(b *ssa.BasicBlock) bool { return b == kindG.iff.Block() || kindEq[b] },
+					settleEdge: func(atom ssa.Value, truth bool) bool {
+						if isNodeNameTest(atom, truth) {
+							if ins, ok := atom.(ssa.Instruction); ok {
+								usedExempt["name is Node"] = ins.Pos()
+							}
+							return true
+						}
+						return false
+					},
+					badBlock: func(b *ssa.BasicBlock) bool { return header != nil && b == header },
+					badRet:   isNilErrReturn,
+				}
+				w := q.run(e.to, e.from)
+				site := r.P.pos(kindG.iff.Cond.Pos())
+				if w != nil {
+					site = r.P.pos(w.Pos())
+					if w.Pos() == token.NoPos {
+						site = r.P.pos(firstPos(w.Block()))
+					}
+				}
+				r.Check(w == nil, rule, name, "every way past an existing name compares the kinds", site,
+					"from the point where the name is found in the accumulated result, the next name or the successful return is reached only through the kind comparison (or the Node exemption)",
+					"an incoming definition whose name already exists can be passed over (skipped or kept as it is) without its kind having been compared with the existing one: which of two conflicting kinds survives then depends on the order of the services")
+			}
+			for k, pos := range usedExempt {
+				r.Tabled(rule, name, "skipped before the kind check: "+k, r.P.pos(pos), "mergerGuardExemptions", mergerGuardExemptions[k])
 			}
 		}
-		r.Check(hasDiff, rule, name, "union/interface member comparison", r.P.pos(mt.Pos()), "member sets are compared with lo.Difference", "union/interface member sets are no longer compared")
+		// union / interface members: each lo.Difference compares the member lists of the two
+		// definitions, and a non-empty difference on either side is an error
+		nDiff := 0
+		for _, ins := range allInstrs(mt) {
+			c, ok := ins.(*ssa.Call)
+			if !ok || !strings.HasPrefix(calleeName(&c.Call), "github.com/samber/lo.Difference") || len(c.Call.Args) != 2 {
+				continue
+			}
+			nDiff++
+			site := r.P.pos(c.Pos())
+			ra, rb := containerReads(c.Call.Args[0]), containerReads(c.Call.Args[1])
+			fields := map[string]bool{}
+			for k := range ra {
+				fields[strings.SplitN(k, " of ", 2)[0]] = true
+			}
+			for k := range rb {
+				fields[strings.SplitN(k, " of ", 2)[0]] = true
+			}
+			construct := "members compared between the two definitions (" + setNames(fields) + ")"
+			distinct := len(ra) > 0 && len(rb) > 0 && !sameStringSet(ra, rb)
+			if why, known := mergerRecordedDefects[construct]; known && !distinct {
+				r.add(&Oblig{Rule: rule, Func: name, Construct: construct, Site: site, Status: "known", Argument: "the two member lists handed to lo.Difference are read from the same place (" + setNames(ra) + "): the comparison cannot fire [recorded defect: " + why + "]"})
+			} else {
+				r.Check(distinct, rule, name, construct, site,
+					"the two lists handed to lo.Difference are read from different definitions ("+setNames(ra)+" / "+setNames(rb)+")",
+					"the two member lists handed to lo.Difference are read from the same place ("+setNames(ra)+"): a set is compared with itself and conflicting member sets are never noticed")
+			}
+			var parts [2]ssa.Value
+			for _, ref := range *c.Referrers() {
+				if ex, ok := ref.(*ssa.Extract); ok && ex.Index < 2 {
+					parts[ex.Index] = ex
+				}
+			}
+			loop := innermostLoop(c.Block())
+			var header *ssa.BasicBlock
+			for b := range loop {
+				for _, p := range b.Preds {
+					if !loop[p] {
+						header = b
+					}
+				}
+			}
+			for i, part := range parts {
+				side := [2]string{"missing in the incoming definition", "missing in the existing definition"}[i]
+				if part == nil {
+					r.Bad(rule, name, "member difference is an error ("+side+")", site, "one half of the member comparison (what is "+side+") is not looked at: member sets that differ in that direction are accepted")
+					continue
+				}
+				part := part
+				q := &pathQuery{
+					settleEdge: func(atom ssa.Value, truth bool) bool {
+						empty, ok := emptinessTest(atom, truth, part)
+						return ok && empty
+					},
+					badBlock: func(b *ssa.BasicBlock) bool { return header != nil && b == header },
+					badRet:   isNilErrReturn,
+				}
+				w := q.run(c.Block(), nil)
+				r.Check(w == nil, rule, name, "member difference is an error ("+side+")", site,
+					"after the comparison, the next name or a successful return is reached only where this half of the difference is empty",
+					"members that are "+side+" do not always end in an error (the two halves of lo.Difference are no longer both required to be empty): e.g. `union U = Dog | Cat` and `union U = Dog | Cat | Snake` merge silently")
+			}
+		}
+		r.Check(nDiff > 0, rule, name, "union/interface member comparison", r.P.pos(mt.Pos()), "member sets are compared with lo.Difference (each call is checked: operands and both halves of the result)", "union/interface member sets are no longer compared")
 	}
 	// both directions
 	mc := r.Anchor(rule, "merger.mergeCustomObjects")
-	if mc != nil && len(mc.Params) == 4 {
+	if mc != nil {
 		var calls []*ssa.Call
 		for _, ins := range allInstrs(mc) {
 			if c, ok := ins.(*ssa.Call); ok && strings.HasSuffix(calleeName(&c.Call), "merger.mergeCustomObjectFields") {
 				calls = append(calls, c)
 			}
 		}
+		// the parameters of mergeCustomObjects that are definitions, and the positions at which
+		// mergeCustomObjectFields takes definitions: forward = same order, reverse = swapped
+		isDef := func(v ssa.Value) bool { return strings.HasSuffix(namedOf(v.Type()), "ast.Definition") }
+		var defParams []ssa.Value
+		for _, p := range mc.Params {
+			if isDef(p) {
+				defParams = append(defParams, p)
+			}
+		}
 		fwd, rev := false, false
 		for _, c := range calls {
-			a := c.Call.Args
-			if len(a) != 4 {
-				continue
+			var defArgs []ssa.Value
+			for _, a := range c.Call.Args {
+				if isDef(a) {
+					defArgs = append(defArgs, a)
+				}
 			}
 			dominatesSuccess := true
 			for _, ret := range returnsOf(mc) {
-				vals := retVals(ret)
-				if isNilConst(unwrap(vals[len(vals)-1])) && !instrDominates(c, ret) {
+				if isNilErrReturn(ret) && !instrDominates(c, ret) {
 					dominatesSuccess = false
 				}
 			}
@@ -174,10 +379,34 @@ func ruleMergerGuards(r *Run) {
 				r.Bad(rule, fnName(mc), "overlap check on every accept", r.P.pos(c.Pos()), "a field-overlap check is skipped on some path that accepts the merge: shared types that are neither identical nor disjoint can be accepted depending on which service comes first")
 				continue
 			}
-			if a[0] == ssa.Value(mc.Params[0]) && a[1] == ssa.Value(mc.Params[1]) && a[2] == ssa.Value(mc.Params[2]) && a[3] == ssa.Value(mc.Params[3]) {
+			if len(defArgs) != 2 || len(defParams) != 2 {
+				continue
+			}
+			// the type maps, where still passed, travel with their definition
+			mapsFollow := func(swapped bool) bool {
+				var mapParams, mapArgs []ssa.Value
+				for _, p := range mc.Params {
+					if !isDef(p) {
+						mapParams = append(mapParams, p)
+					}
+				}
+				for _, a := range c.Call.Args {
+					if !isDef(a) {
+						mapArgs = append(mapArgs, a)
+					}
+				}
+				if len(mapParams) != 2 || len(mapArgs) != 2 {
+					return len(mapArgs) == 0
+				}
+				if swapped {
+					return mapArgs[0] == mapParams[1] && mapArgs[1] == mapParams[0]
+				}
+				return mapArgs[0] == mapParams[0] && mapArgs[1] == mapParams[1]
+			}
+			if defArgs[0] == defParams[0] && defArgs[1] == defParams[1] && mapsFollow(false) {
 				fwd = true
 			}
-			if a[0] == ssa.Value(mc.Params[1]) && a[1] == ssa.Value(mc.Params[0]) && a[2] == ssa.Value(mc.Params[3]) && a[3] == ssa.Value(mc.Params[2]) {
+			if defArgs[0] == defParams[1] && defArgs[1] == defParams[0] && mapsFollow(true) {
 				rev = true
 			}
 		}
@@ -185,68 +414,67 @@ func ruleMergerGuards(r *Run) {
 			"mergeCustomObjectFields(a→b) and (b→a) both dominate every successful return",
 			"the overlap classification of a shared type is not performed unconditionally in both directions before the merge is accepted: acceptance then depends on the order of the services")
 	}
-	// Node types never share a non-id field: the test precedes every accept
+	// Node types never share a non-id field: no successful return of mergeCustomObjectFields is
+	// reached while `implements Node` and `some field overlaps` both hold
 	mf := r.Anchor(rule, "merger.mergeCustomObjectFields")
 	if mf != nil {
 		var nodeCall *ssa.Call
 		for _, ins := range allInstrs(mf) {
-			if c, ok := ins.(*ssa.Call); ok && strings.HasSuffix(calleeName(&c.Call), "merger.isImplementsNodeInterface") {
+			if c, ok := isNodePredicateCall(valueOfInstr(ins)); ok {
 				nodeCall = c
 			}
 		}
 		if nodeCall == nil {
 			r.Bad(rule, fnName(mf), "Node overlap test", r.P.pos(mf.Pos()), "mergeCustomObjectFields no longer asks whether the shared type implements Node")
 		} else {
-			okDom := true
-			var badRet *ssa.Return
-			for _, ret := range returnsOf(mf) {
-				vals := retVals(ret)
-				if isNilConst(unwrap(vals[len(vals)-1])) && !instrDominates(nodeCall, ret) {
-					okDom = false
-					badRet = ret
-				}
-			}
-			site := r.P.pos(nodeCall.Pos())
-			if badRet != nil {
-				site = r.P.pos(retPos(badRet))
-			}
-			r.Check(okDom, rule, fnName(mf), "Node overlap test precedes every accept", site,
-				"every successful return is reached only after the `implements Node && overlapping` test",
-				"a shared type can be accepted (e.g. as a complete copy) on a path that skipped the `implements Node && some field overlaps` test: a Node type whose non-id field is declared by two services is merged silently and the field is routed to whichever service comes last")
-			// and the test's positive side is an error
-			errSide := false
-			for _, ref := range *nodeCall.Referrers() {
-				if iff, ok := ref.(*ssa.If); ok {
-					for _, b := range mf.Blocks {
-						if len(iff.Block().Succs[0].Preds) == 1 && (b == iff.Block().Succs[0] || iff.Block().Succs[0].Dominates(b)) {
-							if ret, ok := b.Instrs[len(b.Instrs)-1].(*ssa.Return); ok {
-								vals := retVals(ret)
-								if !isNilConst(unwrap(vals[len(vals)-1])) {
-									errSide = true
-								}
-							}
-						}
+			sawSome := false
+			q := &pathQuery{
+				settleEdge: func(atom ssa.Value, truth bool) bool {
+					if _, ok := isNodePredicateCall(atom); ok && !truth {
+						return true
 					}
-				}
+					if isExistsAccumulator(atom) {
+						sawSome = true
+						return !truth
+					}
+					return false
+				},
+				badRet: isNilErrReturn,
 			}
-			r.Check(errSide, rule, fnName(mf), "Node overlap is an error", site, "an error is returned under `implements Node && overlapping`", "the Node-overlap test no longer leads to an error")
+			w := q.run(mf.Blocks[0], nil)
+			site := r.P.pos(nodeCall.Pos())
+			if w != nil && w.Pos() != token.NoPos {
+				site = r.P.pos(w.Pos())
+			} else if ret, ok := w.(*ssa.Return); ok {
+				site = r.P.pos(retPos(ret))
+			}
+			r.Check(w == nil && sawSome, rule, fnName(mf), "Node overlap test precedes every accept", site,
+				"every successful return is reached only where the type does not implement Node or no field overlaps: `implements Node && some field overlaps` always ends in an error, whatever the order or naming of the two conjuncts",
+				"a shared type can be accepted (e.g. as a complete copy) although it implements Node and some of its fields overlap (the test is skipped, or narrowed by a further condition): a Node type whose non-id field is declared by two services is merged silently and the field is routed to whichever service comes last")
 		}
 	}
 	// root overlap
 	mr := r.Anchor(rule, "merger.mergeRootObjects")
 	if mr != nil {
 		ok := false
+		isForName := func(v ssa.Value) bool {
+			c, isCall := v.(*ssa.Call)
+			return isCall && strings.HasSuffix(calleeName(&c.Call), "ast.FieldList).ForName")
+		}
+		// through a helper predicate (`hasField(fields, name)`): the test is on the ForName call
+		// inside it
 		for _, ins := range allInstrs(mr) {
 			iff, isIf := ins.(*ssa.If)
 			if !isIf {
 				continue
 			}
-			side := nilTestSide(iff, func(v ssa.Value) bool {
-				c, isCall := v.(*ssa.Call)
-				return isCall && strings.HasSuffix(calleeName(&c.Call), "ast.FieldList).ForName")
-			})
-			if side == nil {
+			nonNil, known := resolveNilTest(iff.Cond, isForName, 0)
+			if !known {
 				continue
+			}
+			side := iff.Block().Succs[0]
+			if !nonNil {
+				side = iff.Block().Succs[1]
 			}
 			// side = non-nil (overlap) → error
 			if returnsErrorOnAllPaths(mr, side) {
@@ -256,6 +484,11 @@ func ruleMergerGuards(r *Run) {
 		r.Check(ok, rule, fnName(mr), "duplicate root field is an error", r.P.pos(mr.Pos()),
 			"a root field that already exists returns an error", "the same root field declared by two services no longer ends in an error on every path")
 	}
+}
+
+func valueOfInstr(ins ssa.Instruction) ssa.Value {
+	v, _ := ins.(ssa.Value)
+	return v
 }
 
 // ---- R13c / R13d --------------------------------------------------------------------------
